@@ -23,7 +23,7 @@ var (
 	c02Raw    = []string{"script", "style", "textarea", "title"}
 
 	c02AttrNames = []string{"class", "id", "title", "href", "data-x"}
-	c02AttrVals  = []string{"a", "a b", "&amp;", "&lt;", "&quot;", "'", " a ", "&amp;lt;", "x&gt;y", "&#39;q"}
+	c02AttrVals  = []string{"a", "a b", "&amp;", "&lt;", "&quot;", "'", " a ", "&amp;lt;", "x&gt;y", "&#39;q", "&nbsp;x&nbsp;", "\u00a0"}
 	c02Texts     = []string{"t", "&amp;", "&lt;b&gt;", "a &lt; b &amp; c", "&amp;lt;", "&#39;", "x &amp; y; z", "\"q\"", "&nbsp;", "a&nbsp;b", "&nbsp;x&nbsp;", "\u00a0", "\u2003"}
 )
 
@@ -59,7 +59,7 @@ func c02NormAs(src string, doc bool) []htmlcmp.El {
 	for i := range els {
 		for j := range els[i].Attrs {
 			// leading/trailing whitespace of attribute values is treated as insignificant
-			els[i].Attrs[j][1] = strings.TrimSpace(els[i].Attrs[j][1])
+			els[i].Attrs[j][1] = strings.TrimFunc(els[i].Attrs[j][1], htmlcmp.IsHTMLSpace)
 		}
 	}
 	return els
@@ -148,9 +148,9 @@ func parentTag(els []htmlcmp.El, i int) string {
 
 var c02Values = map[string]any{
 	"word": "word", "amp": "a & b", "lt": "1 < 2", "tag": "<b>x</b>", "dq": `say "hi"`, "sq": "it's", "ent": "&amp;",
-	"lead": "  lead", "trail": "trail  ", "int": 42, "neg": -7, "true": true, "float": 2.5, "entlt": "&lt;i&gt;", "semi": "a;b&c",
+	"lead": "  lead", "trail": "trail  ", "nbsp": "\u00a0n\u00a0", "int": 42, "neg": -7, "true": true, "float": 2.5, "entlt": "&lt;i&gt;", "semi": "a;b&c",
 }
-var c02ValueNames = []string{"word", "amp", "lt", "tag", "dq", "sq", "ent", "lead", "trail", "int", "neg", "true", "float", "entlt", "semi"}
+var c02ValueNames = []string{"word", "amp", "lt", "tag", "dq", "sq", "ent", "lead", "trail", "nbsp", "int", "neg", "true", "float", "entlt", "semi"}
 
 func (c *c02Case) Run(ctx *core.Ctx) {
 	switch c.Part {
@@ -212,11 +212,11 @@ func (c *c02Case) Run(ctx *core.Ctx) {
 			}
 		case "interp-attr", "bound":
 			g, _ := htmlcmp.Attr(s, "title")
-			if strings.TrimSpace(g) != strings.TrimSpace(want) {
+			if strings.TrimFunc(g, htmlcmp.IsHTMLSpace) != strings.TrimFunc(want, htmlcmp.IsHTMLSpace) {
 				ctx.Violation("interp", c.Part, c02ValClass(sv)+"/"+c02ValClass(c.L+c.R), fmt.Sprintf("src %q v=%q: title %q want %q (out %q)", c.Src, sv, g, want, out))
 			}
 		case "vhtml":
-			if !strings.Contains(out, strings.TrimSpace(sv)) {
+			if !strings.Contains(out, strings.TrimFunc(sv, htmlcmp.IsHTMLSpace)) {
 				ctx.Violation("vhtml", "verbatim", c02ValClass(sv), fmt.Sprintf("src %q v=%q: output %q does not contain the value", c.Src, sv, out))
 			}
 		}
@@ -448,7 +448,7 @@ func init() {
 			"oracle: normalised DOM of parse(render(t)) equals that of parse(t). Interpolation: every value x static neighbours x {text, attr, bound attr, v-html}; oracle: parsed text/attribute = neighbours + string form, v-html verbatim; every interpolation case also right after a render that failed in the middle of a text node / attribute value. " +
 			"non-trivial = parser-stable template or interpolation case; distinct = distinct source text (+value)",
 		Bounds:      map[string]string{"quick": "all forests of <=3 nodes over 23 node labels, depth <=3; full attribute/text/document/interpolation sweeps", "thorough": "all forests of <=4 nodes; same sweeps"},
-		Assumptions: []string{"golang.org/x/net/html is a faithful HTML5 parser", "whitespace-only text, comments, whitespace runs in text and leading/trailing whitespace of attribute values are insignificant", "v-html value is compared after TrimSpace (pinned by a unit test)"},
+		Assumptions: []string{"golang.org/x/net/html is a faithful HTML5 parser", "whitespace-only text, comments, whitespace runs in text and leading/trailing whitespace of attribute values are insignificant", "v-html value is compared after trimming HTML whitespace (the trimming is pinned by a unit test)"},
 		Decode:      core.DecodeAs[c02Case](),
 		Enumerate:   c02Enumerate,
 	})
